@@ -70,6 +70,23 @@ Definition fast_peak_via_slot (b : backend) one lg fy fx f c mask (p : Z * Z) (o
   let wl := map (map lg) (prelog_s one (Corr.tabulate (2 * c) (2 * c) w)) in
   (eval_peak c (cconv (2 * c) (2 * c) (Corr.of_list2 wl) mask) (fst p) (snd p), Corr.of_list2 wl).
 
+(* ---- call histories: state = contents of the crop buffer slots and of the output arrays ---- *)
+Record fstate := { slots : Z -> Z -> Z -> Z; outs : Z -> peak_result }.
+
+Definition step_peak b one lg fy fx f c mask (peaks : Z -> Z * Z) (bc : Z) (st : fstate) (i : Z) : fstate :=
+  let j := slot_of bc i in
+  let rw := fast_peak_via_slot b one lg fy fx f c mask (peaks i) (slots st j) in
+  {| slots := fun k => if k =? j then snd rw else slots st k;
+     outs := fun k => if k =? i then fst rw else outs st k |}.
+
+Definition run_call b one lg fy fx f c mask peaks n bc (st : fstate) : fstate :=
+  fold_left (step_peak b one lg fy fx f c mask peaks bc) (zseq n) st.
+
+(* a history is a list of calls *)
+Record call := { k_fy : Z; k_fx : Z; k_f : frame; k_peaks : Z -> Z * Z; k_n : Z; k_bc : Z; k_backend : backend }.
+Definition do_call one lg c mask (st : fstate) (k : call) : fstate :=
+  run_call (k_backend k) one lg (k_fy k) (k_fx k) (k_f k) c mask (k_peaks k) (k_n k) (k_bc k) st.
+
 (* table-driven logarithm for the correspondence runs: the harness supplies log values for every argument *)
 Definition lookup (t : list (Z * Z)) (k : Z) : Z :=
   match find (fun p => fst p =? k) t with Some p => snd p | None => -777777777 end.
